@@ -69,12 +69,33 @@ func enumPaths(fl *Flow, maxPaths int) ([]dpath, error) {
 	}
 	var out []dpath
 	type state struct {
-		facts  []Fact
-		lits   []literal
-		stores map[string]string
-		phis   map[*ssa.Phi]ssa.Value
-		locals map[*ssa.Alloc]ssa.Value
-		onPath map[*ssa.BasicBlock]bool
+		facts    []Fact
+		lits     []literal
+		stores   map[string]string
+		phis     map[*ssa.Phi]ssa.Value
+		locals   map[*ssa.Alloc]ssa.Value
+		onPath   map[*ssa.BasicBlock]bool
+		callKeys map[*ssa.Call]string // value of a pure helper call on this path, in this function's terms
+	}
+	clone := func(st state) state {
+		ns := state{facts: append([]Fact{}, st.facts...), lits: append([]literal{}, st.lits...), stores: map[string]string{}, phis: map[*ssa.Phi]ssa.Value{},
+			locals: map[*ssa.Alloc]ssa.Value{}, onPath: map[*ssa.BasicBlock]bool{}, callKeys: map[*ssa.Call]string{}}
+		for k, v := range st.stores {
+			ns.stores[k] = v
+		}
+		for k, v := range st.locals {
+			ns.locals[k] = v
+		}
+		for k, v := range st.phis {
+			ns.phis[k] = v
+		}
+		for k := range st.onPath {
+			ns.onPath[k] = true
+		}
+		for k, v := range st.callKeys {
+			ns.callKeys[k] = v
+		}
+		return ns
 	}
 	var err error
 	resolve := func(st *state, v ssa.Value) ssa.Value {
@@ -99,7 +120,37 @@ func enumPaths(fl *Flow, maxPaths int) ([]dpath, error) {
 		}
 		return v
 	}
+	// rk rewrites a key with the values the pure helper calls took on this path
+	rk := func(st *state, k string) string {
+		for call, val := range st.callKeys {
+			k = strings.ReplaceAll(k, fl.K.Key(call), val)
+		}
+		return k
+	}
+	rf := func(st *state, f Fact) Fact {
+		if len(st.callKeys) == 0 {
+			return f
+		}
+		g := Fact{f.Op, rk(st, f.L), ""}
+		if f.R != "" {
+			g.R = rk(st, f.R)
+		}
+		if (g.Op == "==" || g.Op == "!=") && g.L > g.R {
+			g.L, g.R = g.R, g.L
+		}
+		return g
+	}
+	addFacts := func(st *state, fs []Fact) {
+		for _, f := range fs {
+			f = rf(st, f)
+			st.facts = append(st.facts, f)
+			if l, ok := litOf(f); ok {
+				st.lits = append(st.lits, l)
+			}
+		}
+	}
 	var walk func(b, pred *ssa.BasicBlock, st state)
+	var run func(b *ssa.BasicBlock, from int, ns state)
 	walk = func(b, pred *ssa.BasicBlock, st state) {
 		if err != nil {
 			return
@@ -112,20 +163,7 @@ func enumPaths(fl *Flow, maxPaths int) ([]dpath, error) {
 			err = fmt.Errorf("more than %d paths", maxPaths)
 			return
 		}
-		// copy state
-		ns := state{facts: append([]Fact{}, st.facts...), lits: append([]literal{}, st.lits...), stores: map[string]string{}, phis: map[*ssa.Phi]ssa.Value{}, locals: map[*ssa.Alloc]ssa.Value{}, onPath: map[*ssa.BasicBlock]bool{}}
-		for k, v := range st.stores {
-			ns.stores[k] = v
-		}
-		for k, v := range st.locals {
-			ns.locals[k] = v
-		}
-		for k, v := range st.phis {
-			ns.phis[k] = v
-		}
-		for k := range st.onPath {
-			ns.onPath[k] = true
-		}
+		ns := clone(st)
 		ns.onPath[b] = true
 		// phis
 		if pred != nil {
@@ -145,8 +183,26 @@ func enumPaths(fl *Flow, maxPaths int) ([]dpath, error) {
 				}
 			}
 		}
-		for _, in := range b.Instrs {
+		run(b, 0, ns)
+	}
+	run = func(b *ssa.BasicBlock, from int, ns state) {
+		if err != nil {
+			return
+		}
+		for i := from; i < len(b.Instrs); i++ {
+			in := b.Instrs[i]
 			switch x := in.(type) {
+			case *ssa.Call:
+				// a pure, loop-free helper of this package computing a value: one continuation per path of the helper
+				if alts, ok := helperValues(fl, x, func(v ssa.Value) ssa.Value { return resolve(&ns, v) }); ok {
+					for _, a := range alts {
+						as := clone(ns)
+						addFacts(&as, a.facts)
+						as.callKeys[x] = rk(&as, a.result)
+						run(b, i+1, as)
+					}
+					return
+				}
 			case *ssa.Store:
 				if a, ok := x.Addr.(*ssa.Alloc); ok {
 					if u, isU := x.Val.(*ssa.UnOp); !(isU && u.X == a) {
@@ -154,7 +210,7 @@ func enumPaths(fl *Flow, maxPaths int) ([]dpath, error) {
 					}
 				}
 				if fa, ok := x.Addr.(*ssa.FieldAddr); ok && rootAlloc(fa) == nil {
-					ns.stores[fieldName(fa.X.Type(), fa.Field)] = abbrevFn(canon(fl.K.Key(resolve(&ns, x.Val))))
+					ns.stores[fieldName(fa.X.Type(), fa.Field)] = abbrevFn(canon(rk(&ns, fl.K.Key(resolve(&ns, x.Val)))))
 				}
 			case *ssa.Return:
 				res := "void"
@@ -175,35 +231,24 @@ func enumPaths(fl *Flow, maxPaths int) ([]dpath, error) {
 						if v.Type().String() == "bool" {
 							// symbolic boolean result: split into the two outcomes
 							for _, truth := range []bool{true, false} {
+								verdict := map[bool]string{true: "true", false: "false"}[truth]
 								if alts, ok := helperOutcomes(fl, v, truth, func(x ssa.Value) ssa.Value { return resolve(&ns, x) }); ok {
 									for _, afs := range alts {
-										lits := append([]literal{}, ns.lits...)
-										facts := append([]Fact{}, ns.facts...)
-										for _, f := range afs {
-											facts = append(facts, f)
-											if l, ok := litOf(f); ok {
-												lits = append(lits, l)
-											}
-										}
-										out = append(out, dpath{facts, lits, ns.stores, map[bool]string{true: "true", false: "false"}[truth], allRes})
+										as := clone(ns)
+										addFacts(&as, afs)
+										out = append(out, dpath{as.facts, as.lits, as.stores, verdict, allRes})
 									}
 									continue
 								}
 								var fs []Fact
 								fl.decompose(v, truth, &fs)
-								lits := append([]literal{}, ns.lits...)
-								facts := append([]Fact{}, ns.facts...)
-								for _, f := range fs {
-									facts = append(facts, f)
-									if l, ok := litOf(f); ok {
-										lits = append(lits, l)
-									}
-								}
-								out = append(out, dpath{facts, lits, ns.stores, map[bool]string{true: "true", false: "false"}[truth], allRes})
+								as := clone(ns)
+								addFacts(&as, fs)
+								out = append(out, dpath{as.facts, as.lits, as.stores, verdict, allRes})
 							}
 							return
 						}
-						res = abbrevFn(canon(fl.K.Key(v)))
+						res = abbrevFn(canon(rk(&ns, fl.K.Key(v))))
 					}
 				}
 				out = append(out, dpath{ns.facts, ns.lits, ns.stores, res, allRes})
@@ -211,9 +256,7 @@ func enumPaths(fl *Flow, maxPaths int) ([]dpath, error) {
 			}
 		}
 		for _, s := range b.Succs {
-			cs := ns
-			cs.lits = append([]literal{}, ns.lits...)
-			cs.facts = append([]Fact{}, ns.facts...)
+			cs := clone(ns)
 			// edge literals; conditions on phis are resolved along the path
 			if iff, ok := b.Instrs[len(b.Instrs)-1].(*ssa.If); ok && len(b.Succs) == 2 && b.Succs[0] != b.Succs[1] {
 				cond := resolve(&ns, iff.Cond)
@@ -226,34 +269,108 @@ func enumPaths(fl *Flow, maxPaths int) ([]dpath, error) {
 					// the condition is the verdict of a loop-free boolean helper of this package:
 					// splice in each of the helper's own paths that deliver this verdict
 					for _, fs := range alts {
-						as := cs
-						as.lits = append([]literal{}, cs.lits...)
-						as.facts = append([]Fact{}, cs.facts...)
-						for _, f := range fs {
-							as.facts = append(as.facts, f)
-							if l, ok := litOf(f); ok {
-								as.lits = append(as.lits, l)
-							}
-						}
+						as := clone(cs)
+						addFacts(&as, fs)
 						walk(s, b, as)
 					}
 					continue
 				} else {
 					var fs []Fact
 					fl.decompose(cond, truth, &fs)
-					for _, f := range fs {
-						cs.facts = append(cs.facts, f)
-						if l, ok := litOf(f); ok {
-							cs.lits = append(cs.lits, l)
-						}
-					}
+					addFacts(&cs, fs)
 				}
 			}
 			walk(s, b, cs)
 		}
 	}
-	walk(fn.Blocks[0], nil, state{stores: map[string]string{}, phis: map[*ssa.Phi]ssa.Value{}, locals: map[*ssa.Alloc]ssa.Value{}, onPath: map[*ssa.BasicBlock]bool{}})
+	walk(fn.Blocks[0], nil, state{stores: map[string]string{}, phis: map[*ssa.Phi]ssa.Value{}, locals: map[*ssa.Alloc]ssa.Value{}, onPath: map[*ssa.BasicBlock]bool{}, callKeys: map[*ssa.Call]string{}})
 	return out, err
+}
+
+type helperValue struct {
+	facts  []Fact
+	result string
+}
+
+// helperValues: call is a call of a pure, loop-free, single-result (non-boolean) function of the
+// analysed function's own package; it returns, per path of the helper, the conditions of the
+// path and the key of the value returned, both in the caller's terms. `pos := q.next(q.tail)`
+// then reads as the two cases tail+1 (not at the end) and 0 (at the end).
+func helperValues(fl *Flow, call *ssa.Call, resolve func(ssa.Value) ssa.Value) ([]helperValue, bool) {
+	callee := call.Call.StaticCallee()
+	if callee == nil || callee == fl.Fn || callee.Blocks == nil || callee.Synthetic != "" || funcPkgPath(callee) != funcPkgPath(fl.Fn) ||
+		callee.Signature.Results().Len() != 1 || types.Identical(callee.Signature.Results().At(0).Type(), types.Typ[types.Bool]) || helperDepth > 3 {
+		return nil, false
+	}
+	if len(callee.Blocks) < 2 {
+		return nil, false // straight-line accessors stay opaque atoms
+	}
+	pure := true
+	eachInstr(callee, func(in ssa.Instruction) {
+		switch x := in.(type) {
+		case *ssa.Store:
+			if rootAlloc(x.Addr) == nil {
+				pure = false
+			}
+		case *ssa.MapUpdate, *ssa.Send, *ssa.Go, *ssa.Defer:
+			pure = false
+		case *ssa.Call:
+			// only calls of builtins (len, cap) and of further pure helpers
+			if _, isB := x.Call.Value.(*ssa.Builtin); !isB {
+				pure = false
+			}
+		}
+	})
+	if !pure {
+		return nil, false
+	}
+	cfl := NewFlow(fl.P, callee)
+	helperDepth++
+	saved := abbrevFn
+	abbrevFn = func(s string) string { return s }
+	paths, err := enumPaths(cfl, 64)
+	abbrevFn = saved
+	helperDepth--
+	if err != nil {
+		return nil, false
+	}
+	args := make([]string, len(call.Call.Args))
+	for i, a := range call.Call.Args {
+		args[i] = fl.K.Key(resolve(a))
+	}
+	tag := "@~" + callee.Name() + ":b${1}i${2}"
+	subst := func(k string) string {
+		k = localIDRe.ReplaceAllString(k, tag)
+		return paramRe.ReplaceAllStringFunc(k, func(m string) string {
+			i := 0
+			for _, ch := range m[1:] {
+				i = i*10 + int(ch-'0')
+			}
+			if i < len(args) {
+				return args[i]
+			}
+			return m
+		})
+	}
+	var out []helperValue
+	for _, dp := range paths {
+		if len(dp.Results) != 1 {
+			return nil, false
+		}
+		hv := helperValue{result: subst(cfl.K.Key(dp.Results[0]))}
+		for _, f := range dp.Facts {
+			g := Fact{f.Op, subst(f.L), ""}
+			if f.R != "" {
+				g.R = subst(f.R)
+			}
+			if (g.Op == "==" || g.Op == "!=") && g.L > g.R {
+				g.L, g.R = g.R, g.L
+			}
+			hv.facts = append(hv.facts, g)
+		}
+		out = append(out, hv)
+	}
+	return out, len(out) > 0
 }
 
 // consistent reports whether the path's literals contradict each other or the valuation.
